@@ -106,11 +106,18 @@ def handle : Handler := fun op args =>
   | "c10.vec.hist" => withArgs (do let d ← pNat; let ops ← pList pVecOp; pure (d, ops)) args fun (d, ops) => ans (vecHistGuard d ops)
   | "c10.mat.index" | "c10.mat.cindex" => withArgs p3 args fun (r, c, i) => ans (matIndexGuard r i) (matIndexReads (Mat.const r c 1) i)
   | "c10.mat.entries" => withArgs pNats args fun lens => ans (matEntriesGuard lens)
-  | "c10.mat.block" => withArgs (do let R ← pNat; let C ← pNat; let l ← pMany p2 (R * C); pure (R, C, l)) args fun (R, C, l) =>
-      if R = 0 ∨ C = 0 then "undef" else
+  | "c10.mat.block" | "c10.mat.block.empty" => withArgs (do let R ← pNat; let C ← pNat; let l ← pMany p2 (R * C); pure (R, C, l)) args fun (R, C, l) =>
+      if R = 0 ∨ C = 0 then ans (blockLayoutGuard (List.replicate R C)) else
       let rws (r c : Nat) : Nat := (l.getD (r * C + c) (0, 0)).1
       let cls (r c : Nat) : Nat := (l.getD (r * C + c) (0, 0)).2
       ans (blockGuard R C rws cls)
+  | "c10.mat.blockr" => withArgs (pList (pList p2)) args fun rows =>
+      -- ragged / empty list of blocks: the layout test comes first, then the block dimensions of the rectangular grid
+      if (blockLayoutGuard (rows.map List.length)).stops then "err" else
+      let C := (rows.headD []).length
+      let rws (r c : Nat) : Nat := ((rows.getD r []).getD c (0, 0)).1
+      let cls (r c : Nat) : Nat := ((rows.getD r []).getD c (0, 0)).2
+      ans (blockGuard rows.length C rws cls)
   | "c10.mat.delrow" | "c10.mat.row" => withArgs p3 args fun (r, c, i) => ans (matRowGuard r i) (matRowReads (Mat.const r c 1) i)
   | "c10.mat.delcol" | "c10.mat.col" => withArgs p3 args fun (r, c, j) => ans (matColGuard c j) (matColReads (Mat.const r c 1) j)
   | "c10.mat.plus" | "c10.mat.minus" | "c10.mat.addeq" | "c10.mat.subeq" | "c10.mat.opplus" | "c10.mat.opminus" =>
@@ -167,7 +174,10 @@ def handle : Handler := fun op args =>
   | "c10.binom" => withArgs (do let n ← pInt; let k ← pInt; pure (n, k)) args fun (n, k) => ans (binomialGuard n k)
   | "c10.gammaln" => withArgs pRat args fun x => ans (gammaLnGuard x)
   | "c10.gammaq" => withArgs (do let x ← pRat; let a ← pRat; pure (x, a)) args fun (x, a) => ans (gammaQGuard x a)
-  | "c10.invgammap" => withArgs (do let p ← pRat; let a ← pRat; pure (p, a)) args fun (_, a) => ans (invGammaPGuard a)
+  | "c10.invgammap" | "c10.invgammap.p" => withArgs (do let p ← pRat; let a ← pRat; pure (p, a)) args fun (p, a) => ans (invGammaPFullGuard p a)
+  | "c10.invgammaq" => withArgs (do let q ← pRat; let a ← pRat; pure (q, a)) args fun (q, a) => ans (invGammaPFullGuard (1 - q) a)
+  | "c10.gamma" => withArgs pRat args fun x => ans (gammaLnGuard x)
+  | "c10.uppergamma" | "c10.lowergamma" => withArgs (do let x ← pRat; let s ← pRat; pure (x, s)) args fun (x, s) => ans (incompleteGammaGuard x s)
   | "c10.round" => withArgs (do let x ← pRat; let d ← pNat; pure (x, d)) args fun (x, d) => ans (roundGuard x d)
   | "c10.vshy" | "c10.vshpsi" => withArgs pInt args fun c => ans (vshGuard c)
   | "c10.inverf" => withArgs pRat args fun p => ans (invErfGuard p)
@@ -176,25 +186,33 @@ def handle : Handler := fun op args =>
   | "c10.pmfpoisson" | "c10.cdfpoisson" => withArgs (do let mu ← pRat; let n ← pNat; pure (mu, n)) args fun (mu, _) => ans (poissonMeanGuard mu)
   | "c10.invcdfpoisson" => withArgs (do let n ← pNat; let c ← pRat; pure (n, c)) args fun (_, c) => ans (probabilityGuard c)
   | "c10.pdfexp" | "c10.cdfexp" | "c10.pdfmb" | "c10.cdfmb" => withArgs (do let x ← pRat; let a ← pRat; pure (x, a)) args fun (_, a) => ans (positiveGuard a)
+  | "c10.pdfuniform" | "c10.cdfuniform" => withArgs (do let x ← pRat; let a ← pRat; let b ← pRat; pure (x, a, b)) args fun (_, a, b) => ans (intervalGuard a b)
+  | "c10.pdfgauss" | "c10.cdfgauss" => withArgs (do let x ← pRat; let m ← pRat; let s ← pRat; pure (x, m, s)) args fun (_, _, sg) => ans (positiveGuard sg)
+  | "c10.quantilegauss" => withArgs (do let p ← pRat; let m ← pRat; let s ← pRat; pure (p, m, s)) args fun (p, _, sg) => ans (quantileGaussGuard p sg)
+  | "c10.pdfgauss2d" => withArgs (do let a ← pRat; let b ← pRat; pure (a, b)) args fun (a, b) => ans (gauss2DGuard a b)
+  | "c10.pdfchisq" | "c10.cdfchisq" => withArgs (do let x ← pRat; let d ← pRat; pure (x, d)) args fun (_, d) => ans (poissonMeanGuard d)
+  | "c10.llpoisson" | "c10.lpoisson" => withArgs (do let a ← pRat; let n ← pNat; let b ← pRat; pure (a, n, b)) args fun (a, _, b) => ans (likelihoodPoissonGuard a b)
+  | "c10.sampleuniform" => withArgs (do let a ← pRat; let b ← pRat; pure (a, b)) args fun (a, b) => ans (weakIntervalGuard a b)
+  | "c10.samplegauss" => withArgs (do let m ← pRat; let s ← pRat; pure (m, s)) args fun (_, sg) => ans (poissonMeanGuard sg)
+  | "c10.samplepoisson" => withArgs pRat args fun mu => ans (poissonMeanGuard mu)
+  | "c10.samplepoissonv" => withArgs pRats args fun mus => ans (seqGuard (mus.map poissonMeanGuard))
+  | "c10.metropolissigma" => withArgs pRat args fun sg => ans (poissonMeanGuard sg)
   | "c10.llbinned" | "c10.lbinned" => withArgs p3 args fun (n, m, k) => ans (binnedGuard n m k) (binnedReads (ones n) (ones m) (ones k))
   | "c10.metropolis" => withArgs pNat args fun n => ans (metropolisGuard 2 n) (metropolisReads 2 (ones n))
   | "c10.metropolis2d" => withArgs pNat args fun n => ans (metropolisGuard 4 n) (metropolisReads 4 (ones n))
   -- 8. lists, utilities, units
-  | "c10.transpose" => withArgs pNats args fun lens =>
-      match lens with
-      | [] => "undef"      -- `lists[0]` of an empty outer list: outside the quantifier
-      | l0 :: rest => ans (transposeGuard l0 rest) (transposeReads (lens.map ones))
+  | "c10.transpose" | "c10.transpose.empty" => withArgs pNats args fun lens =>
+      ans (transposeAllGuard lens) (if lens.length = 0 then [] else transposeReads (lens.map ones))
   | "c10.transpose2" => withArgs p2 args fun (n, m) => ans (transposeGuard n [m]) (transposeReads [ones n, ones m])
-  | "c10.closest" => withArgs (do let l ← pRats; let t ← pRat; pure (l, t)) args fun (l, t) =>
-      -- an empty list is outside the quantifier (`sorted_list.size() - 1` wraps)
-      if l.length = 0 then "undef" else ans (closestGuard l) (closestReads l (l.takeWhile (fun x => decide (x ≤ t))).length)
+  | "c10.closest" | "c10.closest.empty" => withArgs (do let l ← pRats; let t ← pRat; pure (l, t)) args fun (l, t) =>
+      ans (closestAllGuard l) (closestReads l (l.takeWhile (fun x => decide (x ≤ t))).length)
   | "c10.sublist" => withArgs (do let n ← pNat; let a ← pInt; let b ← pNat; pure (n, a, b)) args fun (n, a, b) =>
       ans (subListGuard n a b) (subListReads (ones n) a b)
   | "c10.inunits" => withArgs (do let l ← pNats; let nd ← pNat; pure (l, nd)) args fun (l, nd) => ans (inUnitsGuard l nd) (inUnitsReads (l.map ones) (ones nd))
   | "c10.exporttable" => withArgs (do let l ← pNats; let nd ← pNat; pure (l, nd)) args fun (l, nd) => ans (exportTableGuard l nd)
   | "c10.importlist" => withArgs pBool args fun e => ans (importListGuard e)
-  | "c10.importtable" => withArgs (do let e ← pBool; let r ← pNat; let c ← pNat; let nd ← pNat; pure (e, r, c, nd)) args fun (e, r, c, nd) =>
-      if e ∧ r = 0 then "undef" else ans (importTableGuard e c nd)
+  | "c10.importtable" | "c10.importtable.empty" => withArgs (do let e ← pBool; let r ← pNat; let c ← pNat; let nd ← pNat; pure (e, r, c, nd)) args fun (e, r, c, nd) =>
+      ans (importTableRowsGuard e r c nd)
   | "c10.checkerr" => withArgs pBool args fun c => ans (checkForErrorGuard c)
   | _ => none
 
